@@ -183,6 +183,18 @@ def concrete_truth(t):
     return bool(t)
 
 
+def harness_guard(fn, oid, funcs):
+    """run a recorder/sentinel based P-tier harness; if it cannot follow the (restructured) code the obligations are
+    *undecided* (the bounded tier still decides the property) - never a violation and never an engine fault"""
+    try:
+        return fn()
+    except sched.Unsupported as ex:
+        return [ob(oid, 'undecided', functions=funcs, tier='P', backend='-', detail=f'engine: {ex}')]
+    except Exception as ex:
+        return [ob(oid, 'undecided', functions=funcs, tier='P', backend='-',
+                   detail='the harness (stubs/sentinels) cannot follow the code: ' + ''.join(traceback.format_exception(ex))[-1200:])]
+
+
 def from_repo(exc):
     """was the exception raised while code of /repo (or a loop body cut from it) was on the stack?
     (otherwise it comes from the harness/contract itself and is an engine fault, never a violation)"""
@@ -200,6 +212,8 @@ def native_check(contract, conc_inputs, shape=None):
     postcondition code. returns (ok, failed clause names, info)"""
     try:
         res = contract.call_native(conc_inputs) if hasattr(contract, 'call_native') else contract.call(conc_inputs)
+    except sched.Unsupported:
+        raise
     except Exception as ex:
         if not from_repo(ex):
             raise
@@ -241,6 +255,24 @@ def verify_contract(contract, shape, tier, rng, part=(0, 1), crosscheck=4):
     vac_ok = 0
     for pi, p in enumerate(paths):
         hyp = list(p.pc) + list(p.assumptions)
+        if isinstance(p.exc, sched.Unsupported):
+            # the engine cannot follow this path: directed bounded fallback = solve the path condition for a concrete
+            # input and evaluate the run-time form of the contract on it (a failing input is a replayed violation)
+            r, m, dt, be = solve(hyp, timeout)
+            oid = f'{base}.unsupported_path[{sh}]#p{pi}'
+            if r == 'sat':
+                w = model_value(m, inputs)
+                try:
+                    ok, failed, info = native_check(contract, w, shape)
+                except Exception as ex2:
+                    ok, failed, info = True, [], f'native evaluation not possible: {ex2}'
+                if not ok:
+                    out.append(ob(f'{base}.{failed[0]}[{sh}]#p{pi}', 'refuted', functions=funcs, tier='P', time_s=dt, backend=be + '+native',
+                                  witness=jsonable(w), detail=f'path outside the engine ({p.exc}); the input solving its path condition violates clause {failed[0]}',
+                                  native=dict(confirmed=True, failed=failed, info=info)))
+                    continue
+            out.append(ob(oid, 'undecided', functions=funcs, tier='P', time_s=dt, backend=be, detail=f'engine: {p.exc}'))
+            continue
         if p.exc is not None and not from_repo(p.exc):
             # raised by the harness / contract / engine, not by the code under proof: engine fault, never a violation
             out.append(ob(f'{base}.harness[{sh}]#p{pi}', 'fault', functions=funcs, tier='P',
@@ -302,6 +334,7 @@ def verify_contract(contract, shape, tier, rng, part=(0, 1), crosscheck=4):
     if part[0] == 0 and crosscheck and hasattr(contract, 'sample'):
         nx = 0
         for _ in range(crosscheck):
+          try:
             conc = contract.sample(rng, shape)
             if conc is None:
                 break
@@ -334,6 +367,9 @@ def verify_contract(contract, shape, tier, rng, part=(0, 1), crosscheck=4):
                                   detail='symbolic result differs from native execution (engine unsound here)'))
                     break
             nx += 1
+          except sched.Unsupported as ex:
+            out.append(ob(f'{base}.crosscheck[{sh}]', 'undecided', functions=funcs, tier='P', detail=f'engine: {ex}'))
+            break
         out.append(ob(f'{base}.meta[{sh}]', 'meta', functions=funcs, tier='P', paths=len(paths), branch_solver_calls=nsol,
                       explore_s=round(t_explore, 3), crosscheck_inputs=nx, backend='-'))
     return out
